@@ -72,6 +72,10 @@ func cmdCheck(args []string) int {
 		fmt.Println("ENGINE-ERROR unknown property", prop)
 		return 2
 	}
+	if *tier == "thorough" {
+		// the thorough tier judges every clause of the selected functions, not only the tagged ones
+		spec.TaggedOnly = false
+	}
 	seed, _ := strconv.Atoi(envOr("VERIF_SEED", "0"))
 	timeout := 10
 	if *tier == "thorough" {
@@ -283,29 +287,8 @@ func cmdCheck(args []string) int {
 		}
 	}
 	// a function whose contract no longer fits its code (a clause failed to evaluate: renamed local, loop moved into
-	// a helper, anchor gone) is not judged at all: what its obligations say is about the stale contract, not about
-	// the property. The mismatch is an engine error (exit 2), never a VIOLATION.
-	stale := map[string]bool{}
-	for _, r := range out.runs {
-		if len(r.errs) > 0 {
-			stale[r.relName] = true
-		}
-	}
-	if len(stale) > 0 {
-		var keepV []*Obligation
-		dropped := map[string]int{}
-		for _, o := range out.violations {
-			if stale[o.Func] {
-				dropped[o.Func]++
-				continue
-			}
-			keepV = append(keepV, o)
-		}
-		out.violations = keepV
-		for f, n := range dropped {
-			out.engineErrs = append(out.engineErrs, fmt.Sprintf("the contract of %s no longer matches its code; %d of its obligations were not judged", f, n))
-		}
-	}
+	// a helper, anchor gone) is reported as an engine error; what its remaining obligations say is still reported
+	// (a change that restructures a loop and breaks the property at the same time must not hide behind exit 2).
 	for f, n := range retCanaries {
 		if n > 0 && retFeasible[f] == 0 {
 			out.engineErrs = append(out.engineErrs, "no sampled return path of "+f+" is reachable under its assumptions (vacuity guard)")
